@@ -269,7 +269,10 @@ def emit_cif(rows, rng=None, attrs=None, drop=()):
     label_seq_id differ from the auth_ values, neutral charges are sometimes written as 0."""
     attrs = [a for a in (attrs or CIF_ATTRS) if a not in drop]
     idx = [CIF_ATTRS.index(a) for a in attrs]
-    out = ["data_g4", "#", "loop_"] + ["_atom_site." + a for a in attrs]
+    kw = (lambda w: w)
+    if rng is not None and rng.random() < 0.1:
+        kw = rng.choice([str.upper, str.capitalize])     # reserved words of CIF are case-insensitive
+    out = [kw("data_") + "g4", "#", kw("loop_")] + ["_atom_site." + a for a in attrs]
     lab = {}
     seq = {}
     fine = rng is not None and rng.random() < 0.15     # coordinates with 5 decimals (never within 1e-5 of a rounding tie)
